@@ -22,7 +22,8 @@
                               inserted in another order). *)
 From Coq Require Import List NArith ZArith Bool Permutation.
 From SK Require Import lib.LGraph model.C01_Model model.C02_Model model.C09_Model
-  proof.C09_Canon proof.C09_Valid proof.C09_Balance proof.C09_Main proof.C09_Indep proof.C09_Indep2 proof.C09_ValidRC.
+  proof.C09_Canon proof.C09_Valid proof.C09_Balance proof.C09_Main proof.C09_Indep proof.C09_Indep2 proof.C09_ValidRC proof.C09_WL.
+From SK Require model.C08_Model.
 Import ListNotations.
 
 (** 1. Canonicalising = relabelling both sides by ONE injective map f (canonical position on the reactant atoms, fresh
@@ -123,6 +124,36 @@ Theorem C09_fixed_point_partial : forall (G H Gc1 : mgraph) (order1 : list N),
         same_upto_order (set_amap Gc2) Gc1' /\ same_upto_order Hc2' Hc1'.
 Proof. exact fixed_point_gen. Qed.
 Print Assumptions C09_fixed_point_partial.
+
+(** 2'. Back-end wl, invariance premise DISCHARGED: if the WL colours (oracle input [ranks]; networkx's contract: colours
+       are invariant under renaming - premise) of corresponding atoms correspond and all reactant atoms have different
+       colours ([ranks_distinct]), the two presentations get the same canonical graphs from [canonicalise_wl] (the
+       function [run_canon_wl] evaluates), and a second run on the canonical graphs returns them.  Still partial w.r.t.
+       the property text only through the RDKit writer / parser contract S2 (string level). *)
+Theorem C09_numbering_independent_wl_partial :
+  forall (ranks1 ranks2 : list (N * Z)) (G H G2' H2' : mgraph) (p : N -> N),
+  parsed G -> parsed H -> (exists s, In s (node_ids G) /\ In s (node_ids H)) ->
+  (forall a b, p a = p b -> a = b) -> (forall n, In n (node_ids G) \/ In n (node_ids H) -> p n <> 0%N) ->
+  (forall m n, In m (node_ids H) -> ~ In m (node_ids G) -> In n (node_ids H) -> ~ In n (node_ids G) -> (m <= n)%N -> (p m <= p n)%N) ->
+  relabelled_by p G G2' -> relabelled_by p H H2' ->
+  (forall n, In n (node_ids G) -> C08_Model.rank_of ranks2 (p n) = C08_Model.rank_of ranks1 n) -> ranks_distinct ranks1 G ->
+  exists (pairs1 pairs2 : list (N * N)) (Gc1 Gc2 Hc1 Hc2 : mgraph),
+    canonicalise_wl ranks1 G H = Some (Gc1, pairs1, Hc1) /\
+    canonicalise_wl ranks2 (set_amap G2') (set_amap H2') = Some (Gc2, pairs2, Hc2) /\
+    same_upto_order Gc2 Gc1 /\ same_upto_order Hc2 Hc1.
+Proof. exact numbering_independent_wl. Qed.
+Print Assumptions C09_numbering_independent_wl_partial.
+
+Theorem C09_fixed_point_wl_partial : forall (ranks1 ranks2 : list (N * Z)) (G H : mgraph),
+  parsed G -> parsed H -> (exists s, In s (node_ids G) /\ In s (node_ids H)) ->
+  ranks_distinct ranks1 G ->
+  (forall n, In n (node_ids G) -> C08_Model.rank_of ranks2 (sigma_of (wl_order ranks1 G) n) = C08_Model.rank_of ranks1 n) ->
+  exists (pairs1 : list (N * N)) (Gc1 Hc1 : mgraph),
+    canonicalise_wl ranks1 G H = Some (Gc1, pairs1, Hc1) /\
+    exists (pairs2 : list (N * N)) (Gc2 Hc2 : mgraph),
+      canonicalise_wl ranks2 Gc1 Hc1 = Some (Gc2, pairs2, Hc2) /\ same_upto_order Gc2 Gc1 /\ same_upto_order Hc2 Hc1.
+Proof. exact fixed_point_wl. Qed.
+Print Assumptions C09_fixed_point_wl_partial.
 
 (** 3. The validator is exact: the matcher the correspondence runs answers true iff the two ITS graphs (resp. the two
        reaction centres) are isomorphic on typesGH + order. *)
